@@ -718,6 +718,11 @@ func (c *compiler) stringsOperator(l string, r interface{}, op string) (interfac
 	return nil, fmt.Errorf("unknown operator for string %s", op)
 }
 
+// isHelperContextType reports whether a helper parameter of type t receives the HelperContext.
+func isHelperContextType(t reflect.Type) bool {
+	return t.ConvertibleTo(reflect.TypeOf(HelperContext{})) || t.Implements(reflect.TypeOf((*hctx.HelperContext)(nil)).Elem())
+}
+
 func (c *compiler) evalCallExpression(node *ast.CallExpression) (interface{}, error) {
 	var rv reflect.Value
 
@@ -801,6 +806,9 @@ func (c *compiler) evalCallExpression(node *ast.CallExpression) (interface{}, er
 			expectedT := rt.In(pos)
 			if v != nil {
 				ar = reflect.ValueOf(v)
+			} else if isHelperContextType(expectedT) {
+				// an explicit nil for the helper context means "the usual one", as when it is omitted
+				ar = reflect.ValueOf(HelperContext{Context: c.ctx, compiler: c, block: node.Block})
 			} else {
 				ar = reflect.New(expectedT).Elem()
 			}
